@@ -3998,9 +3998,8 @@ def fix_import_spacing(source: str) -> str:
         else:
             continue
 
-        indentation_level = formatting.indentation_level(
-            whitespace_between + source[i2_start:i2_end]
-        )
+        # The second statement stays in its column, whatever is in the lines of a string inside it
+        indentation_level = len(whitespace_between) - len(whitespace_between.rstrip(" "))
         spacing = "\n" * correct_newline_count + " " * indentation_level
         spacing = re.sub(r"\n +\n", "\n\n", spacing)
         replacement_range = core.Range(i1_end, i2_start)
@@ -4019,10 +4018,7 @@ def fix_import_spacing(source: str) -> str:
             + new_source[replacement_range.end :]
         )
 
-    if core.is_valid_python(new_source):
-        return new_source
-
-    return source
+    return processing.keep_syntax_tree(source, new_source)
 
 
 def sort_imports(source: str) -> str:
